@@ -21,8 +21,11 @@
 //	            types - including fields promoted through embedded structs (x.f = x.E.f) -,
 //	            pointers to such arrays/structs as parameters/receivers only, `error` results
 //	functions   any number of results (several results = a tuple); a function may write through at
-//	            most ONE pointer parameter: without results it is translated to a function returning
-//	            that parameter's final value, with results to one returning (that value, results...);
+//	            most ONE pointer parameter OR one []byte parameter: without results it is translated
+//	            to a function returning that parameter's final value (for a []byte: its final
+//	            contents), with results to one returning (that value, results...); a function that
+//	            contains the explicit bounds check `_ = b[k]` returns option (None = that check
+//	            panics) and cannot be called from another translated function;
 //	            only functions with exactly one result and no written pointer can be CALLED in an
 //	            expression, only result-less ones as a statement; no recursion; unnamed / blank
 //	            parameters are kept
@@ -31,7 +34,8 @@
 //	            if / else if / else (with init statement), switch with or without tag (constant or
 //	            non-constant cases, default anywhere, no fallthrough/break), return, nested blocks,
 //	            calls of whitelisted result-less functions as statements;
-//	            nlenc.PutUint8/16/32/64 / PutInt32(b[lo:hi], v) and copy(dst, src) as statements
+//	            nlenc.PutUint8/16/32/64 / PutInt32(b[lo:hi], v), binary.LittleEndian.PutUint16/32/64
+//	            (b[lo:hi], v) and copy(dst, src) as statements; `_ = b[k]` (b []byte, k constant)
 //	expressions constants (folded by go/types; floats printed as the IEEE bit pattern of the rounded
 //	            value; strings as byte lists), locals, parameters, + - * / % (divisor: non-zero
 //	            constant) << >> (count: unsigned type or constant) & | ^ &^, unary - ^ ! +,
@@ -39,16 +43,23 @@
 //	            == != on bools, && ||, conversions between integer types, integer -> float64,
 //	            float64 <-> float32, a[i], s.f, struct literals with keyed fields, calls of
 //	            whitelisted functions/methods, fmt.Errorf(...) (= non-nil error), nil (error or
-//	            []byte result), len(x), make([]byte, const), b[lo:hi] with constant bounds,
+//	            []byte result), len(x), make([]byte, const), b[lo:hi] / b[lo:] / b[:hi] of a []byte
+//	            (integer bounds, constant or not; of a [N]byte array only as the source of copy or
+//	            the argument of a library reader),
 //	            types.Typ[k], the library functions math.Max/Min/IsNaN/Float32bits/Float32frombits/
-//	            Float64bits/Float64frombits and nlenc.Uint8/Uint16/Uint32/Uint64/Int32, and the
+//	            Float64bits/Float64frombits, nlenc.Uint8/Uint16/Uint32/Uint64/Int32 and
+//	            binary.LittleEndian.Uint16/Uint32/Uint64 (encoding/binary), and the
 //	            reinterpreting load *(*T)(unsafe.Pointer(&x)) of a local x for (x's type -> T) in
 //	            uint64->float32, uint32->float32, uint64->float64, float32->uint32, float64->uint64
 //	slices      no aliasing: a []byte LOCAL can only be bound to make(...); stores (b[i] = v,
-//	            nlenc.PutXxx(b[lo:hi], v), copy(b[lo:hi], src)) are accepted only when b is such a
-//	            local (or, for copy, an array l-value) and are printed as functional updates of b;
-//	            a []byte parameter can be read, sliced, passed to readers and returned, never
-//	            written; nlenc readers/writers on a constant sub-slice of the wrong width are rejected
+//	            nlenc/binary PutXxx(b[lo:hi], v) with constant bounds, copy(b[lo:hi], src) with
+//	            constant bounds or open-ended b[lo:]) are accepted only when b is such a local or THE
+//	            written []byte parameter of the function (or, for copy, an array l-value) and are
+//	            printed as functional updates of b; the written []byte parameter is ASSUMED not to
+//	            overlap any other parameter (GoSem.v header); every other []byte parameter can be
+//	            read, sliced, passed to readers and returned, never written; nlenc readers/writers on
+//	            a constant sub-slice of the wrong width (binary.LittleEndian: of a smaller width) are
+//	            rejected
 //
 // Every integer operation is emitted at the static type go/types reports for that expression,
 // against the operators of coq/theories/Translate/GoSem.v, every floating-point operation against
@@ -140,6 +151,16 @@ var whitelist = []struct{ pkg, recv, name string }{
 	{"pkg/socketcan", "frame", "isRemote"},
 	{"pkg/socketcan", "frame", "isError"},
 	{"pkg/socketcan", "frame", "id"},
+	{"pkg/socketcan", "frame", "unmarshalBinary"},
+	{"pkg/socketcan", "frame", "marshalBinary"},
+	{"pkg/socketcan", "frame", "errorClass"},
+	{"pkg/socketcan", "frame", "lostArbitrationBit"},
+	{"pkg/socketcan", "frame", "controllerError"},
+	{"pkg/socketcan", "frame", "protocolError"},
+	{"pkg/socketcan", "frame", "protocolErrorLocation"},
+	{"pkg/socketcan", "frame", "transceiverError"},
+	{"pkg/socketcan", "frame", "controllerSpecificInformation"},
+	{"pkg/socketcan", "frame", "decodeErrorFrame"},
 }
 
 // ---------------------------------------------------------------------------- errors
@@ -390,7 +411,8 @@ type fn struct {
 	params            []*param // receiver first
 	res               *gtype   // nil: no result; otherwise the first result
 	results           []gtype  // all results
-	mut               *param   // pointer parameter written through, or nil
+	mut               *param   // pointer (or []byte) parameter written through, or nil
+	partial           bool     // contains an explicit bounds check `_ = b[k]`: result type option (None = panic)
 	state             int      // 1 = being analysed, 2 = analysed
 	text              string
 	pos               token.Position
@@ -579,9 +601,9 @@ func (t *translator) analyse(key string, from token.Pos) *fn {
 	}
 	mutated := map[*param]token.Pos{}
 	noteWrite := func(lhs ast.Expr) {
-		if p := paramOf(rootIdent(lhs)); p != nil && p.g.ptr {
+		if p := paramOf(rootIdent(lhs)); p != nil && (p.g.ptr || p.g.k == kBytes) {
 			if _, isIdent := ast.Unparen(lhs).(*ast.Ident); isIdent {
-				t.failf(lhs.Pos(), "assignment to the pointer parameter %s itself", p.v.Name())
+				t.failf(lhs.Pos(), "assignment to the pointer / []byte parameter %s itself", p.v.Name())
 			}
 			if _, seen := mutated[p]; !seen {
 				mutated[p] = lhs.Pos()
@@ -593,6 +615,9 @@ func (t *translator) analyse(key string, from token.Pos) *fn {
 		case *ast.FuncLit:
 			t.failf(x.Pos(), "function literal")
 		case *ast.AssignStmt:
+			if isBoundsCheck(x) {
+				f.partial = true
+			}
 			for _, l := range x.Lhs {
 				noteWrite(l)
 			}
@@ -654,6 +679,9 @@ func (t *translator) analyse(key string, from token.Pos) *fn {
 				return true // semantics in GoSem*.v; the arguments are ordinary expressions
 			}
 			g := t.analyse(funcKey(callee), x.Pos())
+			if g.partial {
+				t.failf(x.Pos(), "call of %s, which contains an explicit bounds check (may panic)", g.display)
+			}
 			if g.mut != nil {
 				args := t.callArgs(info, x, g)
 				for i, p := range g.params {
@@ -707,6 +735,19 @@ func (t *translator) fieldSteps(pos token.Pos, sel *types.Selection) []fieldStep
 		cur = fld.Type()
 	}
 	return steps
+}
+
+// isBoundsCheck: the statement `_ = x[k]` (the idiom that makes the compiler check len(x) > k once).
+func isBoundsCheck(s *ast.AssignStmt) bool {
+	if s.Tok != token.ASSIGN || len(s.Lhs) != 1 || len(s.Rhs) != 1 {
+		return false
+	}
+	id, ok := s.Lhs[0].(*ast.Ident)
+	if !ok || id.Name != "_" {
+		return false
+	}
+	_, ok = ast.Unparen(s.Rhs[0]).(*ast.IndexExpr)
+	return ok
 }
 
 func builtinOf(info *types.Info, call *ast.CallExpr) string {
@@ -867,6 +908,7 @@ type intrinsic struct {
 	params   []gtype
 	res      gtype
 	sliceLen int64 // > 0: the (single) []byte argument must have exactly this length
+	atLeast  bool  // ... or (encoding/binary) at least this length: only the first sliceLen bytes are read
 }
 
 var (
@@ -883,47 +925,76 @@ const nlencPath = "github.com/mdlayher/netlink/nlenc"
 // putIntrinsics: nlenc.PutXxx(b, v) stores v in host (little-endian) order THROUGH the slice b;
 // only accepted as a statement whose first argument is (a constant sub-slice of) a variable.
 type putIntrinsic struct {
-	coq  string
-	size int64
-	val  gtype
+	coq     string
+	size    int64
+	val     gtype
+	atLeast bool // encoding/binary: the slice may be longer, the first size bytes are written
 }
 
+// libKey: the table key of a library function: "pkgpath.Name" for package-level functions,
+// "encoding/binary.LittleEndian.Name" for the methods of encoding/binary's littleEndian (a struct{}
+// without state: every value of the type, in particular the variable binary.LittleEndian, behaves
+// the same, so the receiver expression is not looked at).
+func libKey(f *types.Func) (string, bool) {
+	if f == nil || f.Pkg() == nil {
+		return "", false
+	}
+	if r := f.Type().(*types.Signature).Recv(); r != nil {
+		if n, ok := r.Type().(*types.Named); ok && f.Pkg().Path() == "encoding/binary" && n.Obj().Name() == "littleEndian" {
+			return "encoding/binary.LittleEndian." + f.Name(), true
+		}
+		return "", false
+	}
+	return f.Pkg().Path() + "." + f.Name(), true
+}
+
+const binLE = "encoding/binary.LittleEndian"
+
+
 var putIntrinsics = map[string]putIntrinsic{
-	nlencPath + ".PutUint8":  {"nlenc_PutUint8", 1, gtype{k: kInt, bits: 8}},
-	nlencPath + ".PutUint16": {"nlenc_PutUint16", 2, gtype{k: kInt, bits: 16}},
-	nlencPath + ".PutUint32": {"nlenc_PutUint32", 4, gU32},
-	nlencPath + ".PutUint64": {"nlenc_PutUint64", 8, gU64},
-	nlencPath + ".PutInt32":  {"nlenc_PutInt32", 4, gtype{k: kInt, bits: 32, signed: true}},
+	nlencPath + ".PutUint8":  {"nlenc_PutUint8", 1, gtype{k: kInt, bits: 8}, false},
+	nlencPath + ".PutUint16": {"nlenc_PutUint16", 2, gtype{k: kInt, bits: 16}, false},
+	nlencPath + ".PutUint32": {"nlenc_PutUint32", 4, gU32, false},
+	nlencPath + ".PutUint64": {"nlenc_PutUint64", 8, gU64, false},
+	nlencPath + ".PutInt32":  {"nlenc_PutInt32", 4, gtype{k: kInt, bits: 32, signed: true}, false},
+	binLE + ".PutUint16":     {"binary_le_PutUint16", 2, gtype{k: kInt, bits: 16}, true},
+	binLE + ".PutUint32":     {"binary_le_PutUint32", 4, gU32, true},
+	binLE + ".PutUint64":     {"binary_le_PutUint64", 8, gU64, true},
 }
 
 func putIntrinsicOf(f *types.Func) (putIntrinsic, bool) {
-	if f == nil || f.Pkg() == nil || f.Type().(*types.Signature).Recv() != nil {
+	k, ok := libKey(f)
+	if !ok {
 		return putIntrinsic{}, false
 	}
-	in, ok := putIntrinsics[f.Pkg().Path()+"."+f.Name()]
+	in, ok := putIntrinsics[k]
 	return in, ok
 }
 
 var intrinsics = map[string]intrinsic{
-	"math.Max":             {"go_math_Max", []gtype{gF64, gF64}, gF64, 0},
-	"math.Min":             {"go_math_Min", []gtype{gF64, gF64}, gF64, 0},
-	"math.IsNaN":           {"go_math_IsNaN", []gtype{gF64}, gBool, 0},
-	"math.Float32bits":     {"go_math_Float32bits", []gtype{gF32}, gU32, 0},
-	"math.Float32frombits": {"go_math_Float32frombits", []gtype{gU32}, gF32, 0},
-	"math.Float64bits":     {"go_math_Float64bits", []gtype{gF64}, gU64, 0},
-	"math.Float64frombits": {"go_math_Float64frombits", []gtype{gU64}, gF64, 0},
-	nlencPath + ".Uint8":   {"nlenc_Uint8", []gtype{gByts}, gtype{k: kInt, bits: 8}, 1},
-	nlencPath + ".Uint16":  {"nlenc_Uint16", []gtype{gByts}, gtype{k: kInt, bits: 16}, 2},
-	nlencPath + ".Uint32":  {"nlenc_Uint32", []gtype{gByts}, gU32, 4},
-	nlencPath + ".Uint64":  {"nlenc_Uint64", []gtype{gByts}, gU64, 8},
-	nlencPath + ".Int32":   {"nlenc_Int32", []gtype{gByts}, gtype{k: kInt, bits: 32, signed: true}, 4},
+	"math.Max":             {"go_math_Max", []gtype{gF64, gF64}, gF64, 0, false},
+	"math.Min":             {"go_math_Min", []gtype{gF64, gF64}, gF64, 0, false},
+	"math.IsNaN":           {"go_math_IsNaN", []gtype{gF64}, gBool, 0, false},
+	"math.Float32bits":     {"go_math_Float32bits", []gtype{gF32}, gU32, 0, false},
+	"math.Float32frombits": {"go_math_Float32frombits", []gtype{gU32}, gF32, 0, false},
+	"math.Float64bits":     {"go_math_Float64bits", []gtype{gF64}, gU64, 0, false},
+	"math.Float64frombits": {"go_math_Float64frombits", []gtype{gU64}, gF64, 0, false},
+	nlencPath + ".Uint8":   {"nlenc_Uint8", []gtype{gByts}, gtype{k: kInt, bits: 8}, 1, false},
+	nlencPath + ".Uint16":  {"nlenc_Uint16", []gtype{gByts}, gtype{k: kInt, bits: 16}, 2, false},
+	nlencPath + ".Uint32":  {"nlenc_Uint32", []gtype{gByts}, gU32, 4, false},
+	nlencPath + ".Uint64":  {"nlenc_Uint64", []gtype{gByts}, gU64, 8, false},
+	nlencPath + ".Int32":   {"nlenc_Int32", []gtype{gByts}, gtype{k: kInt, bits: 32, signed: true}, 4, false},
+	binLE + ".Uint16":      {"binary_le_Uint16", []gtype{gByts}, gtype{k: kInt, bits: 16}, 2, true},
+	binLE + ".Uint32":      {"binary_le_Uint32", []gtype{gByts}, gU32, 4, true},
+	binLE + ".Uint64":      {"binary_le_Uint64", []gtype{gByts}, gU64, 8, true},
 }
 
 func intrinsicOf(f *types.Func) (intrinsic, bool) {
-	if f == nil || f.Pkg() == nil || f.Type().(*types.Signature).Recv() != nil {
+	k, ok := libKey(f)
+	if !ok {
 		return intrinsic{}, false
 	}
-	in, ok := intrinsics[f.Pkg().Path()+"."+f.Name()]
+	in, ok := intrinsics[k]
 	return in, ok
 }
 
@@ -994,47 +1065,84 @@ func (c *fctx) isTypesTyp(e ast.Expr) bool {
 	return ok && v.Pkg() != nil && v.Pkg().Path() == "go/types" && v.Name() == "Typ" && !v.IsField()
 }
 
-// sliceParts: x[lo:hi] with constant bounds (lo defaults to 0; hi defaults to the length of an
-// array operand). Returns the translated operand, the bounds and the operand's type.
-func (c *fctx) sliceParts(x *ast.SliceExpr) (base string, lo, hi int64, g gtype) {
+// sliceParts: x[lo:hi]. lo defaults to 0; hi defaults to the length of an array operand, and to
+// len(x) for a []byte operand (open-ended slice). Non-constant bounds (integer expressions) are
+// accepted only with allowVar (read positions); constant bounds are checked against each other and
+// against the length of an array operand.
+type sliceInfo struct {
+	base     string
+	g        gtype
+	lo, hi   string
+	loC, hiC int64
+	constant bool // both bounds are known constants (hi-lo = the static length of the slice)
+}
+
+func (c *fctx) sliceParts(x *ast.SliceExpr, allowVar bool) sliceInfo {
 	t := c.t
 	if x.Slice3 {
 		t.failf(x.Pos(), "3-index slice expression")
 	}
-	g = c.typeOf(x.X)
-	if g.k != kBytes && g.k != kArray {
+	si := sliceInfo{g: c.typeOf(x.X), constant: true}
+	if si.g.k != kBytes && si.g.k != kArray {
 		t.failf(x.Pos(), "slicing of %s", c.info.TypeOf(x.X))
 	}
-	bound := func(e ast.Expr, def int64) int64 {
-		if e == nil {
-			if def < 0 {
-				t.failf(x.Pos(), "slice expression without a constant upper bound")
-			}
-			return def
-		}
+	si.base = c.expr(x.X)
+	bound := func(e ast.Expr) (string, int64, bool) {
 		tv := c.info.Types[e]
 		if tv.Value == nil {
-			t.failf(e.Pos(), "non-constant slice bound")
+			if !allowVar {
+				t.failf(e.Pos(), "non-constant slice bound")
+			}
+			if g := c.typeOf(e); g.k != kInt {
+				t.failf(e.Pos(), "slice bound of non-integer type")
+			}
+			return c.expr(e), 0, false
 		}
 		n, exact := constant.Int64Val(constant.ToInt(tv.Value))
 		if !exact || n < 0 {
 			t.failf(e.Pos(), "slice bound %s", tv.Value.ExactString())
 		}
-		return n
+		return fmt.Sprint(n), n, true
 	}
-	lo = bound(x.Low, 0)
-	if g.k == kArray {
-		hi = bound(x.High, g.n)
-		if hi > g.n {
-			t.failf(x.Pos(), "slice bound %d beyond the array", hi)
+	si.lo, si.loC = "0", 0
+	if x.Low != nil {
+		var k bool
+		si.lo, si.loC, k = bound(x.Low)
+		si.constant = si.constant && k
+	}
+	hiConst := true
+	switch {
+	case x.High != nil:
+		si.hi, si.hiC, hiConst = bound(x.High)
+	case si.g.k == kArray:
+		si.hi, si.hiC = fmt.Sprint(si.g.n), si.g.n
+	default:
+		si.hi, hiConst = fmt.Sprintf("(bytes_len %s)", si.base), false
+	}
+	si.constant = si.constant && hiConst
+	if hiConst && si.g.k == kArray && si.hiC > si.g.n {
+		t.failf(x.Pos(), "slice bound %d beyond the array", si.hiC)
+	}
+	if si.constant && si.loC > si.hiC {
+		t.failf(x.Pos(), "inverted slice bounds %d:%d", si.loC, si.hiC)
+	}
+	return si
+}
+
+// bytesOperand: an expression read as a []byte by copy (source) or by a library reader: a []byte
+// expression, or a slice a[lo:hi] of a [N]byte array (the array's bytes lo..hi-1; the slice value does
+// not outlive the call, so no alias of the array is created).
+func (c *fctx) bytesOperand(e ast.Expr) string {
+	if sl, ok := ast.Unparen(e).(*ast.SliceExpr); ok {
+		if g := c.typeOf(sl.X); g.k == kArray {
+			si := c.sliceParts(sl, true)
+			return fmt.Sprintf("(bytes_slice %s %s %s)", si.base, si.lo, si.hi)
 		}
-	} else {
-		hi = bound(x.High, -1)
 	}
-	if lo > hi {
-		t.failf(x.Pos(), "inverted slice bounds %d:%d", lo, hi)
+	if g := c.typeOf(e); g.k != kBytes {
+		c.t.failf(e.Pos(), "%s used as a []byte operand", c.info.TypeOf(e))
 	}
-	return c.expr(x.X), lo, hi, g
+	return c.expr(e)
 }
 
 func (c *fctx) expr(e ast.Expr) string {
@@ -1129,11 +1237,11 @@ func (c *fctx) expr(e ast.Expr) string {
 		}
 		return fmt.Sprintf("(data_get %s %s)", c.expr(x.X), c.expr(x.Index))
 	case *ast.SliceExpr:
-		base, lo, hi, _ := c.sliceParts(x)
 		if g := c.typeOf(x.X); g.k != kBytes {
-			t.failf(x.Pos(), "slicing of %s in an expression", c.info.TypeOf(x.X))
+			t.failf(x.Pos(), "slicing of %s in an expression (only as the source of copy or the argument of a library reader)", c.info.TypeOf(x.X))
 		}
-		return fmt.Sprintf("(bytes_slice %s %d %d)", base, lo, hi)
+		si := c.sliceParts(x, true)
+		return fmt.Sprintf("(bytes_slice %s %s %s)", si.base, si.lo, si.hi)
 	case *ast.SelectorExpr:
 		sel, ok := c.info.Selections[x]
 		if !ok || sel.Kind() != types.FieldVal {
@@ -1211,12 +1319,20 @@ func (c *fctx) expr(e ast.Expr) string {
 				if have := c.typeOf(a); !have.same(in.params[i]) || have.ptr {
 					t.failf(a.Pos(), "argument %d of %s.%s has type %s", i+1, callee.Pkg().Path(), callee.Name(), c.info.TypeOf(a))
 				}
-				if in.sliceLen > 0 { // nlenc.UintNN panics unless the slice has exactly that many bytes
+				if in.sliceLen > 0 {
+					// nlenc.UintNN panics unless the slice has exactly that many bytes, binary.LittleEndian.UintNN
+					// unless it has at least that many
 					if sl, ok := ast.Unparen(a).(*ast.SliceExpr); ok {
-						if _, lo, hi, _ := c.sliceParts(sl); hi-lo != in.sliceLen {
-							t.failf(a.Pos(), "%s.%s on a slice of %d bytes panics", callee.Pkg().Name(), callee.Name(), hi-lo)
+						si := c.sliceParts(sl, true)
+						if !si.constant {
+							t.failf(a.Pos(), "%s.%s on a slice whose length is not a constant", callee.Pkg().Name(), callee.Name())
+						}
+						if n := si.hiC - si.loC; n != in.sliceLen && !(in.atLeast && n > in.sliceLen) {
+							t.failf(a.Pos(), "%s.%s on a slice of %d bytes panics", callee.Pkg().Name(), callee.Name(), n)
 						}
 					}
+					parts = append(parts, c.bytesOperand(a))
+					continue
 				}
 				parts = append(parts, c.expr(a))
 			}
@@ -1486,7 +1602,7 @@ func (c *fctx) checkRoot(lhs ast.Expr) {
 		o = c.info.Defs[id]
 	}
 	for _, p := range c.f.params {
-		if types.Object(p.v) == o && p.g.ptr && p != c.f.mut {
+		if types.Object(p.v) == o && (p.g.ptr || p.g.k == kBytes) && p != c.f.mut {
 			c.t.failf(lhs.Pos(), "internal: write through %s not found by the analysis", id.Name)
 		}
 	}
@@ -1503,7 +1619,10 @@ func (c *fctx) ownedBytes(e ast.Expr, what string) {
 	o := c.info.Uses[id]
 	for _, p := range c.f.params {
 		if types.Object(p.v) == o {
-			c.t.failf(e.Pos(), "%s the []byte parameter %s (the caller would see the store)", what, id.Name)
+			if p == c.f.mut {
+				return // THE written parameter: its final contents are what the function returns
+			}
+			c.t.failf(e.Pos(), "internal: write through the []byte parameter %s not found by the analysis", id.Name)
 		}
 	}
 	if _, ok := c.vars[o]; !ok {
@@ -1536,15 +1655,18 @@ func (c *fctx) putStmt(call *ast.CallExpr, callee *types.Func, put putIntrinsic)
 	dst := ast.Unparen(call.Args[0])
 	c.checkRoot(dst)
 	if sl, ok := dst.(*ast.SliceExpr); ok {
-		base, lo, hi, g := c.sliceParts(sl)
-		if g.k != kBytes {
+		si := c.sliceParts(sl, false)
+		if si.g.k != kBytes {
 			t.failf(dst.Pos(), "%s.%s through a slice of %s", callee.Pkg().Name(), callee.Name(), c.info.TypeOf(sl.X))
 		}
-		if hi-lo != put.size {
-			t.failf(dst.Pos(), "%s.%s on a slice of %d bytes panics", callee.Pkg().Name(), callee.Name(), hi-lo)
+		if !si.constant {
+			t.failf(dst.Pos(), "%s.%s through a slice whose length is not a constant", callee.Pkg().Name(), callee.Name())
+		}
+		if n := si.hiC - si.loC; n != put.size && !(put.atLeast && n > put.size) {
+			t.failf(dst.Pos(), "%s.%s on a slice of %d bytes panics", callee.Pkg().Name(), callee.Name(), n)
 		}
 		c.ownedBytes(sl.X, "store through")
-		return c.store(sl.X, fmt.Sprintf("(%s %s %d %s)", put.coq, base, lo, val))
+		return c.store(sl.X, fmt.Sprintf("(%s %s %d %s)", put.coq, si.base, si.loC, val))
 	}
 	if g := c.typeOf(dst); g.k != kBytes {
 		t.failf(dst.Pos(), "%s.%s on %s", callee.Pkg().Name(), callee.Name(), c.info.TypeOf(dst))
@@ -1563,15 +1685,15 @@ func (c *fctx) copyStmt(call *ast.CallExpr) (name, newval string) {
 	if g := c.typeOf(call.Args[1]); g.k != kBytes {
 		t.failf(call.Args[1].Pos(), "copy from %s", c.info.TypeOf(call.Args[1]))
 	}
-	src := c.expr(call.Args[1])
+	src := c.bytesOperand(call.Args[1])
 	dst := ast.Unparen(call.Args[0])
 	c.checkRoot(dst)
 	if sl, ok := dst.(*ast.SliceExpr); ok {
-		base, lo, hi, g := c.sliceParts(sl)
-		if g.k == kBytes {
+		si := c.sliceParts(sl, false) // constant bounds, or open-ended b[lo:] = b[lo:len(b)]
+		if si.g.k == kBytes {
 			c.ownedBytes(sl.X, "copy into")
 		}
-		return c.store(sl.X, fmt.Sprintf("(bytes_copy_at %s %d %d %s)", base, lo, hi, src))
+		return c.store(sl.X, fmt.Sprintf("(bytes_copy_at %s %s %s %s)", si.base, si.lo, si.hi, src))
 	}
 	if g := c.typeOf(dst); g.k != kBytes {
 		t.failf(dst.Pos(), "copy to %s", c.info.TypeOf(dst))
@@ -1602,7 +1724,7 @@ func (c *fctx) block(list []ast.Stmt, ind int, k cont) string {
 			if len(s.Results) != 0 {
 				t.failf(s.Pos(), "return with a value in a result-less function")
 			}
-			return pad(ind) + c.f.mut.name
+			return pad(ind) + c.ret(c.f.mut.name)
 		}
 		if len(s.Results) != len(c.f.results) {
 			t.failf(s.Pos(), "return with %d values for %d results", len(s.Results), len(c.f.results))
@@ -1633,9 +1755,9 @@ func (c *fctx) block(list []ast.Stmt, ind int, k cont) string {
 			vals = append(vals, c.expr(r))
 		}
 		if len(vals) == 1 {
-			return pad(ind) + vals[0]
+			return pad(ind) + c.ret(vals[0])
 		}
-		return pad(ind) + "(" + strings.Join(vals, ", ") + ")"
+		return pad(ind) + c.ret("("+strings.Join(vals, ", ")+")")
 	case *ast.DeclStmt:
 		gd, ok := s.Decl.(*ast.GenDecl)
 		if !ok || (gd.Tok != token.VAR && gd.Tok != token.CONST) {
@@ -1669,6 +1791,23 @@ func (c *fctx) block(list []ast.Stmt, ind int, k cont) string {
 		}
 		return strings.Join(lets, "") + rest(ind)
 	case *ast.AssignStmt:
+		if isBoundsCheck(s) {
+			// `_ = b[k]`: panics unless k < len(b); the one run-time panic that is modelled (None)
+			ix := ast.Unparen(s.Rhs[0]).(*ast.IndexExpr)
+			if g := c.typeOf(ix.X); g.k != kBytes {
+				t.failf(s.Pos(), "bounds check on %s", c.info.TypeOf(ix.X))
+			}
+			itv := c.info.Types[ix.Index]
+			if itv.Value == nil {
+				t.failf(s.Pos(), "bounds check with a non-constant index")
+			}
+			k, exact := constant.Int64Val(constant.ToInt(itv.Value))
+			if !exact || k < 0 || !c.f.partial {
+				t.failf(s.Pos(), "bounds check with index %s", itv.Value.ExactString())
+			}
+			return pad(ind) + fmt.Sprintf("if (bytes_len %s <=? %d) then None (* panic: index out of range *) else (\n", c.expr(ix.X), k) +
+				rest(ind+2) + "\n" + pad(ind) + ")"
+		}
 		if len(s.Lhs) != 1 || len(s.Rhs) != 1 {
 			t.failf(s.Pos(), "assignment with more than one operand on a side")
 		}
@@ -1847,6 +1986,14 @@ func (c *fctx) block(list []ast.Stmt, ind int, k cont) string {
 	panic("unreachable")
 }
 
+// ret: the value a return yields: wrapped in Some for a function with an explicit bounds check.
+func (c *fctx) ret(v string) string {
+	if c.f.partial {
+		return "Some " + v
+	}
+	return v
+}
+
 func stmtKind(s ast.Stmt) string {
 	switch x := s.(type) {
 	case *ast.ForStmt:
@@ -1891,11 +2038,14 @@ func (t *translator) translate(f *fn) {
 	if len(rts) > 1 {
 		ret = "(" + ret + ")"
 	}
+	if f.partial {
+		ret = "option " + ret
+	}
 	end := func(ind int) string {
 		if f.res != nil {
 			t.failf(f.d.decl.Body.Rbrace, "control reaches the end of a function with a result")
 		}
-		return pad(ind) + f.mut.name
+		return pad(ind) + c.ret(f.mut.name)
 	}
 	body := c.block(f.d.decl.Body.List, 2, end)
 	rel, _ := filepath.Rel(t.root, f.pos.Filename)
